@@ -6,3 +6,13 @@ package command
 
 func VerifErrSaveMetaTransactionNotFound() error   { return newErrSaveMetadataTransactionNotFound() }
 func VerifErrDeleteMetaTransactionNotFound() error { return newErrDeleteMetadataTransactionNotFound() }
+
+// VerifAppendLocked reports whether some request is inside the append critical section
+// (transaction id allocation, chaining, hand-off to the batcher).
+func (commander *Commander) VerifAppendLocked() bool {
+	if commander.appendMu.TryLock() {
+		commander.appendMu.Unlock()
+		return false
+	}
+	return true
+}
